@@ -233,6 +233,39 @@ func pipelinesHandle(raw []byte) map[string]interface{} {
 	res["wfC"] = dumpBytecode(dec, tengo.GlobalsSize)
 	res["C"] = runVM(cpC, dec)
 	res["encoded_bytes"] = buf.Len()
+	// D: Encode called on bytecode that was NOT de-duplicated, then the receiver is used again: run, encoded a second time, decoded, run
+	if len(pc.Inputs) == 0 {
+		cpD, badD := compileRaw(&pc)
+		if badD == nil {
+			var b1, b2 bytes.Buffer
+			if err := cpD.bc.Encode(&b1); err != nil {
+				res["D"] = V{"k": "encode_error", "msg": err.Error()}
+			} else {
+				res["D"] = runVM(cpD, cpD.bc) // the receiver after Encode
+				if err := cpD.bc.Encode(&b2); err != nil {
+					res["D2"] = V{"k": "encode_error", "msg": err.Error()}
+				} else {
+					decD := &tengo.Bytecode{}
+					if err := decD.Decode(bytes.NewReader(b2.Bytes()), cpD.mods); err != nil {
+						res["D2"] = V{"k": "decode_error", "msg": err.Error()}
+					} else {
+						cpD2 := &compiledProg{bc: decD, globals: make([]tengo.Object, tengo.GlobalsSize), names: cpD.names, files: cpD.files, mods: cpD.mods}
+						res["D2"] = runVM(cpD2, decD)
+					}
+				}
+			}
+		}
+		// E: decoded without the embedder's module map (data-only modules travel inside the encoding)
+		if pc.StateMod && !pc.Stdlib && len(pc.Mods) == 0 && pc.Weird == "" {
+			decE := &tengo.Bytecode{}
+			if err := decE.Decode(bytes.NewReader(buf.Bytes()), tengo.NewModuleMap()); err != nil {
+				res["E"] = V{"k": "decode_error", "msg": err.Error()}
+			} else {
+				cpE := &compiledProg{bc: decE, globals: make([]tengo.Object, tengo.GlobalsSize), names: cpC.names, files: cpC.files, mods: cpC.mods}
+				res["E"] = runVM(cpE, decE)
+			}
+		}
+	}
 	// the same encoding read a second time with the same module map: an independent program again
 	dec2 := &tengo.Bytecode{}
 	if err := dec2.Decode(bytes.NewReader(buf.Bytes()), cpC.mods); err != nil {
